@@ -26,6 +26,7 @@ PURE = ("llvm.fshl", "llvm.fshr", "llvm.bswap", "llvm.umin", "llvm.umax", "llvm.
 IGNORE = ("llvm.lifetime", "llvm.dbg", "llvm.assume", "llvm.experimental.noalias", "llvm.stacksave", "llvm.stackrestore")
 MEM = {"llvm.memcpy", "llvm.memmove", "llvm.memset", "memcpy", "memmove", "memset"}
 ALLOC = {"calloc", "malloc", "realloc", "free"}
+VARTIME_CMP = {"memcmp", "bcmp", "strcmp", "strncmp", "memchr", "strlen", "strchr"}
 
 
 class Taint:
@@ -42,6 +43,7 @@ class Taint:
         self.findings = []
         self.counts = defaultdict(int)
         self.public_loads = defaultdict(int)      # audit trail: what was treated as public
+        self.cmp_sites = []
         self._run()
 
     # ---------------------------------------------------------------- levels
@@ -89,6 +91,18 @@ class Taint:
                 return ("mem", "secret memory %s" % addr_str(a, self.prog))
         return ("mem", "secret memory %s" % addr_str(a, self.prog))
 
+    def _mem_secret(self, f, ptr):
+        """reason when the memory behind pointer operand `ptr` is secret."""
+        a = self.am[f.key].of(ptr) if ptr[0] in ("i", "a", "g", "ce") else None
+        if a is None:
+            return ("mem", "untracked memory")
+        if a.root[0] == "alloca" and len(a.segs) == 1:
+            return self.localH[f.key].get(a.root[1])
+        if a.root[0] == "global" and len(a.segs) == 1:
+            g = self.prog.global_def(f.unit, a.root[1])
+            return None if g and g[1]["constant"] else ("mem", "mutable global")
+        return ("mem", "secret memory %s" % addr_str(a, self.prog))
+
     def store_class_is_L(self, f, inst):
         a = self.am[f.key].of(inst["ops"][1])
         if a is None or a.segs[-1].off is None or not a.segs[-1].ty:
@@ -117,6 +131,14 @@ class Taint:
                     changed = True
         for f in self.funcs:
             self._sinks(f)
+        seen = set()
+        for (f, i, name, r) in self.cmp_sites:
+            if (f.key, i["id"]) in seen:
+                continue
+            seen.add((f.key, i["id"]))
+            self.findings.append({"rule": "R1", "func": f, "inst": i,
+                                  "what": "%s() over %s: the library routine exits at the first differing byte, so its running time depends on secret data" % (name, r[1]),
+                                  "witness": ["%s: call to %s" % (f.loc(i), name)]})
 
     def _raise(self, table, key, reason):
         if key not in table:
@@ -229,6 +251,16 @@ class Taint:
                     return "changed"
             return None
         if name in ALLOC:
+            return None
+        if name in VARTIME_CMP:
+            # variable-time library comparison: its running time (and result) depend on the buffers' contents
+            for k in (0, 1):
+                if k >= len(i["ops"]):
+                    continue
+                r = self._mem_secret(f, i["ops"][k])
+                if r:
+                    self.cmp_sites.append((f, i, name, r))
+                    return ("mem", "result of %s over %s" % (name, r[1]))
             return None
         ts = self._targets(f, i)
         if ts is None:
